@@ -893,7 +893,7 @@ def build_inputs(chk: Check) -> list[dict]:
     return inputs
 
 
-FINDING_BITS = {1: "F02a", 2: "F02b", 3: "F02c", 4: "F02d", 5: "F02f"}
+FINDING_BITS = {1: "F02a", 2: "F02b", 3: "F02c", 4: "F02d"}
 
 
 def main(chk: Check, replay: dict | None = None) -> int:
